@@ -24,6 +24,10 @@ import (
 
 var T *testing.T // set by the test entry; synctest needs it
 
+// NoAlt drops the second-device / direct-release events from systems built while it is set
+// (used for the long random chains; the tables keep them)
+var NoAlt bool
+
 const leaseTime = time.Hour
 
 // Sys is one DHCPv4 server configuration under exploration.
@@ -45,6 +49,12 @@ func NewSys(variant string, nclients int, cidr string, nunits int, reqUnits []in
 		}
 		for _, u := range reqUnits {
 			s.events = append(s.events, core.Event{"op": "REQ", "c": c, "u": u})
+		}
+		if variant == "relay" && !NoAlt {
+			// a second device behind the same circuit (the client is the circuit), and a RELEASE the
+			// client unicasts to the server itself, i.e. without relay fields
+			s.events = append(s.events, core.Event{"op": "DISCALT", "c": c, "u": -1}, core.Event{"op": "REQSELALT", "c": c, "u": -1},
+				core.Event{"op": "RELDIRECT", "c": c, "u": -1})
 		}
 		for _, u := range reqUnits {
 			if u >= 2 && u <= 3 {
@@ -148,6 +158,8 @@ type inst struct {
 	offAge map[string]int
 	decl   map[string]bool
 	fp     *fpState
+	ackAlt map[int]bool // the client's current lease was ACKed to its second device
+	direct bool         // build the next message without relay fields
 }
 
 func (s *Sys) New() core.Instance {
@@ -177,7 +189,7 @@ func (s *Sys) New() core.Instance {
 			panic(err)
 		}
 	}
-	return &inst{fp: fp, s: s, srv: srv, pool: p, conn: &capConn{}, lastOffer: map[int]int{}, lastAck: map[int]int{}, start: time.Now(), offAge: map[string]int{}, decl: map[string]bool{}}
+	return &inst{fp: fp, s: s, srv: srv, pool: p, conn: &capConn{}, lastOffer: map[int]int{}, lastAck: map[int]int{}, start: time.Now(), offAge: map[string]int{}, decl: map[string]bool{}, ackAlt: map[int]bool{}}
 }
 
 func (in *inst) build(c int, alt bool, mt dhcpv4.MessageType, reqIP net.IP, ciaddr net.IP) *dhcpv4.DHCPv4 {
@@ -193,7 +205,7 @@ func (in *inst) build(c int, alt bool, mt dhcpv4.MessageType, reqIP net.IP, ciad
 	if ciaddr != nil {
 		mods = append(mods, dhcpv4.WithClientIP(ciaddr))
 	}
-	if in.s.Variant == "relay" {
+	if in.s.Variant == "relay" && !in.direct {
 		mods = append(mods, dhcpv4.WithGatewayIP(net.IPv4(10, 9, 9, 1)))
 		cid := []byte(fmt.Sprintf("cid-%d", c))
 		mods = append(mods, dhcpv4.WithOption(dhcpv4.OptRelayAgentInfo(dhcpv4.OptGeneric(dhcpv4.GenericOptionCode(1), cid))))
@@ -248,27 +260,36 @@ func (in *inst) Apply(ev core.Event) map[string]any {
 		}
 		rt, ru := in.send(in.build(c, op == "REQSELALT", dhcpv4.MessageTypeRequest, s.unitIP(o), nil))
 		in.noteAck(c, rt, ru)
+		if rt == "ACK" {
+			in.ackAlt[c] = op == "REQSELALT"
+		}
 		return out(rt, ru, o, false)
 	case "REQOWN": // renewal: ciaddr = the address the client was last ACKed
 		o, ok := in.lastAck[c]
 		if !ok || o < 0 {
 			return out("none", -1, -1, true)
 		}
-		rt, ru := in.send(in.build(c, false, dhcpv4.MessageTypeRequest, nil, s.unitIP(o)))
+		rt, ru := in.send(in.build(c, in.ackAlt[c], dhcpv4.MessageTypeRequest, nil, s.unitIP(o)))
 		in.noteAck(c, rt, ru)
 		return out(rt, ru, o, false)
 	case "REQ": // INIT-REBOOT style request for an arbitrary address
 		rt, ru := in.send(in.build(c, false, dhcpv4.MessageTypeRequest, s.unitIP(u), nil))
 		in.noteAck(c, rt, ru)
+		if rt == "ACK" {
+			in.ackAlt[c] = false
+		}
 		return out(rt, ru, u, false)
-	case "REL":
+	case "REL", "RELDIRECT": // sent by the device that holds the lease; RELDIRECT bypasses the relay
 		o, ok := in.lastAck[c]
 		var ci net.IP
 		if ok && o >= 0 {
 			ci = s.unitIP(o)
 		}
-		rt, ru := in.send(in.build(c, false, dhcpv4.MessageTypeRelease, nil, ci))
+		in.direct = op == "RELDIRECT"
+		rt, ru := in.send(in.build(c, in.ackAlt[c], dhcpv4.MessageTypeRelease, nil, ci))
+		in.direct = false
 		delete(in.lastAck, c)
+		delete(in.ackAlt, c)
 		return out(rt, ru, o, false)
 	case "DECL": // the client declines the address it was just ACKed
 		o, ok := in.lastAck[c]
@@ -276,12 +297,17 @@ func (in *inst) Apply(ev core.Event) map[string]any {
 			return out("none", -1, -1, true)
 		}
 		in.decl[fmt.Sprintf("%d", o)] = true
-		rt, ru := in.send(in.build(c, false, dhcpv4.MessageTypeDecline, s.unitIP(o), nil))
+		rt, ru := in.send(in.build(c, in.ackAlt[c], dhcpv4.MessageTypeDecline, s.unitIP(o), nil))
 		delete(in.lastAck, c)
+		delete(in.ackAlt, c)
 		return out(rt, ru, o, false)
 	case "DECLU": // a DECLINE naming an arbitrary address
 		in.decl[fmt.Sprintf("%d", u)] = true
-		rt, ru := in.send(in.build(c, false, dhcpv4.MessageTypeDecline, s.unitIP(u), nil))
+		rt, ru := in.send(in.build(c, in.ackAlt[c], dhcpv4.MessageTypeDecline, s.unitIP(u), nil))
+		if o, ok := in.lastAck[c]; ok && o == u { // it named the client's own address: the lease is gone
+			delete(in.lastAck, c)
+			delete(in.ackAlt, c)
+		}
 		return out(rt, ru, u, false)
 	case "INFORM":
 		rt, ru := in.send(in.build(c, false, dhcpv4.MessageTypeInform, nil, s.unitIP(2)))
@@ -383,7 +409,7 @@ func (in *inst) Fingerprint() string {
 	if in.fp != nil {
 		fpfp = "|FP:" + in.fp.fingerprint()
 	}
-	return fpfp + strings.Join(parts, ";") + "|A:" + strings.Join(al, ",") + "|V:" + strings.Join(av, ",") + "|U:" + strings.Join(ps.Unavailable, ",") + "|H:" + strings.Join(lo, ";") + core.Fingerprint(in.offAge, nil) + core.Fingerprint(in.decl, nil)
+	return fpfp + strings.Join(parts, ";") + "|A:" + strings.Join(al, ",") + "|V:" + strings.Join(av, ",") + "|U:" + strings.Join(ps.Unavailable, ",") + "|H:" + strings.Join(lo, ";") + core.Fingerprint(in.ackAlt, nil) + core.Fingerprint(in.offAge, nil) + core.Fingerprint(in.decl, nil)
 }
 
 // Probe: which usable addresses can fresh clients still obtain (DISCOVER until no OFFER)?
